@@ -6,15 +6,13 @@ import KavaVerif.Props.C05
 #print axioms KV.Cdp.C05_feed_gate_create
 #print axioms KV.Cdp.C05_feed_gate_deposit
 #print axioms KV.Cdp.C05_feed_gate_withdraw
-#print axioms KV.Cdp.C05_feed_gate_draw_counterexample
-#print axioms KV.Cdp.C05_feed_gate_draw_partial
+#print axioms KV.Cdp.C05_feed_gate_draw
 #print axioms KV.Cdp.C05_keeper_sound
-#print axioms KV.Cdp.C05_block_sound_counterexample
-#print axioms KV.Cdp.C05_block_sound_counterexample_state
-#print axioms KV.Cdp.C05_block_sound_partial
-#print axioms KV.Cdp.C05_block_complete_partial
+#print axioms KV.Cdp.C05_block_sound
+#print axioms KV.Cdp.C05_block_sound_state
+#print axioms KV.Cdp.C05_block_index_bound
+#print axioms KV.Cdp.C05_block_complete
 #print axioms KV.Cdp.C05_block_complete_bound
+#print axioms KV.Cdp.C05_debt_split_exact
+#print axioms KV.Cdp.C05_debt_split_never_short
 #print axioms KV.Cdp.C05_seize_whole
-#print axioms KV.Cdp.C05_seize_whole_single_deposit
-#print axioms KV.Cdp.C05_seize_whole_counterexample
-#print axioms KV.Cdp.C05_seize_whole_partial
